@@ -312,10 +312,11 @@ def oracle_c15(world, result):
     P["batch_gt_n"] = int(bs > n)
 
     # 1. alignment -----------------------------------------------------------
-    tags_of = {}
+    tags_of, aligned_of = {}, {}
     for c in gcalls + ncalls:
-        tags, aligned = row_tags(c["loss"])
-        tags_of[c["loss"]["seq"]] = tags
+        tags_of[c["loss"]["seq"]], aligned_of[c["loss"]["seq"]] = row_tags(c["loss"])
+    for c in gcalls + ncalls:
+        tags, aligned = tags_of[c["loss"]["seq"]], aligned_of[c["loss"]["seq"]]
         if not aligned:
             V.append(
                 {
